@@ -118,7 +118,9 @@ def Dense.diff (impl ref : Dense) (tol : Float) (exactZero : Bool) : Option (Nat
     for j in [0:ref.dim] do
       let a := impl.get i j
       let b := ref.get i j
-      if exactZero && (a.isZero != b.isZero) then return some (i, j)
+      -- exact zero pattern; a non-zero value below float32's normal range (a product of several
+      -- sin/cos values at near-multiples of pi/2) may legitimately underflow to 0 on the Go side
+      if exactZero && (a.isZero != b.isZero) && !(C.dist a b ≤ 1e-36) then return some (i, j)
       if !(C.dist a b ≤ tol) then return some (i, j)
   return none
 
